@@ -227,6 +227,10 @@ func parseContracts(file string, pkgPath string) ([]*Contract, error) {
 	if err != nil {
 		return nil, err
 	}
+	return parseContractsData(data, file, pkgPath)
+}
+
+func parseContractsData(data []byte, file string, pkgPath string) ([]*Contract, error) {
 	var out []*Contract
 	var cur *Contract
 	var loop *LoopSpec
@@ -401,6 +405,7 @@ type Pkg struct {
 	ByName    map[string]*Contract
 	FuncDecls map[string]*ast.FuncDecl // unit-style name -> decl
 	Injected  map[ast.Stmt]bool
+	sharedPre map[*ast.FuncDecl][]ast.Stmt
 	Folds     map[string]*FoldDecl
 	Loops     map[*ast.FuncDecl][]ast.Stmt // loops in source order per function
 	Errors    []string
@@ -469,6 +474,9 @@ func loadWorld(repo string, only []string) (*World, error) {
 		}
 		pk.index()
 		pk.addAutoMapLoops()
+		if err := pk.addCloneUnits(w); err != nil {
+			return nil, err
+		}
 		if len(pk.Contracts) > 0 {
 			if err := pk.injectAndRecheck(w); err != nil {
 				return nil, err
@@ -684,10 +692,42 @@ func (pk *Pkg) injectAndRecheck(w *World) error {
 		}
 		blk := &ast.BlockStmt{List: inj}
 		pk.Injected[blk] = true
+		if label == "" {
+			// several units over one function (FUNC@TAG) share the declarations of result/panicval
+			if pk.sharedPre == nil {
+				pk.sharedPre = map[*ast.FuncDecl][]ast.Stmt{}
+			}
+			have := map[string]bool{}
+			for _, s := range pk.sharedPre[fd] {
+				if ds, ok := s.(*ast.DeclStmt); ok {
+					for _, sp := range ds.Decl.(*ast.GenDecl).Specs {
+						for _, id := range sp.(*ast.ValueSpec).Names {
+							have[id.Name] = true
+						}
+					}
+				}
+			}
+			var fresh []ast.Stmt
+			for i := 0; i+1 < len(pre); i += 2 {
+				// pairs: `var x T` ; `_ = x`
+				ds, ok := pre[i].(*ast.DeclStmt)
+				if !ok {
+					continue
+				}
+				nm := ds.Decl.(*ast.GenDecl).Specs[0].(*ast.ValueSpec).Names[0].Name
+				if !have[nm] {
+					fresh = append(fresh, pre[i], pre[i+1])
+				}
+			}
+			pk.sharedPre[fd] = append(pk.sharedPre[fd], fresh...)
+			pre = fresh
+			c.PreDecls = pk.sharedPre[fd]
+		} else {
+			c.PreDecls = pre
+		}
 		for _, s := range pre {
 			pk.Injected[s] = true
 		}
-		c.PreDecls = pre
 		postBlk := &ast.BlockStmt{List: injPost}
 		pk.Injected[postBlk] = true
 		nb := append([]ast.Stmt{}, pre...)
